@@ -82,7 +82,7 @@ def _c14_precedence(rec):
 def _step(rec):
     """(rule, before, after) of the step a behavioural violation is attributed to."""
     d = rec.get("detail") or {}
-    rule = d.get("attributed_rule") or rec.get("rule")
+    rule = d.get("attributed_rule") or rec.get("attributed_rule") or rec.get("rule")
     before = d.get("step_before") or rec.get("before") or rec.get("input")
     after = d.get("step_after") or rec.get("after") or d.get("after")
     return rule, before, after
